@@ -149,6 +149,7 @@ func (r *Report) Finish(w *World, verifDir string, loadErr error) int {
 		for _, u := range w.Unresolved() {
 			r.Undecided("ANCHOR", u, "", "anchor named by a rule table does not resolve in the analysed tree; the rule cannot be decided")
 		}
+		w.ClearUnresolved()
 	}
 	// vacuity
 	counts := map[string]int{}
